@@ -22,6 +22,11 @@ var creds = []auth.Credential{
 	{Username: "bob", Password: "p:a:s:s"},
 	{Username: "", Password: "only-password"},
 	{Username: "ünï", Password: "pä55wörd→"},
+	// bytes whose base64 text uses the two symbols in which the standard and the URL alphabet differ ("+" and "/")
+	{Username: "admin", Password: "Wh?not~>"},
+	{Username: "пользователь", Password: "пароль"},
+	{Username: "jürgen", Password: "geheim-ÿß"},
+	{Username: "a", Password: "???>>>~~~"},
 	{RefreshToken: "refresh-1"},
 	{AccessToken: "access-1"},
 	{Username: "carol", Password: "pw", RefreshToken: "r2", AccessToken: "a2"},
